@@ -1,6 +1,7 @@
 //! Monitors, workload generators and adapters shared by the harness binaries.
 pub mod checks;
 pub mod drive;
+pub mod e2e;
 pub mod gen;
 pub mod memio;
 pub mod panicmon;
